@@ -14,6 +14,7 @@ import (
 	"github.com/evolbioinfo/goalign/align"
 	"github.com/evolbioinfo/goalign/io/partition"
 
+	"verif/lib/conc"
 	"verif/lib/gen"
 	"verif/lib/h"
 	"verif/lib/mon"
@@ -1868,6 +1869,7 @@ func main() {
 		mon.Floor(k, n)
 	}
 	cliMultiFloors()
+	mon.Floor("concurrent:calls", 500)
 	mon.Main("C04", []mon.Sub{
 		{Name: "witness", Quick: len(witnesses), Thorough: len(witnesses), Run: runWitness},
 		{Name: "window", Quick: 30000, Thorough: 1200000, Run: runWindow},
@@ -1881,6 +1883,7 @@ func main() {
 			cliWitness(c, c.Idx)
 			c.NonTrivial("cli-witness", gen.Itoa(c.Idx))
 		}},
+		{Name: "concurrent", Quick: 64, Thorough: 1200, Race: true, Run: func(c *mon.Case) { conc.Run(c, "extract") }},
 		{Name: "cli", Quick: 800, Thorough: 12000, Serial: true, Run: runCli},
 		// Phylip files holding several alignments through the same commands (climulti.go)
 		{Name: "witness-cli-multi", Quick: 6, Thorough: 6, Run: func(c *mon.Case) {
